@@ -275,7 +275,8 @@ Inductive finding : Type :=
 | PartialNegative       (* BODY[n]<s.l>: s < 0, or s + l (wrapped to int64) < s *)
 | TextPartialNegative   (* BODY[TEXT]<..>: same arithmetic, scan errors ignored *)
 | HeaderFieldsShort     (* fewer than prefixLen bytes follow the start of BODY[HEADER.FIELDS *)
-| BodystructureLfTail.  (* header/body separator is LF LF within 3 bytes of the end, no CRLF CRLF *)
+| BodystructureLfTail   (* header/body separator is LF LF within 3 bytes of the end, no CRLF CRLF *)
+| SearchOrArity.        (* SEARCH ... OR k1 a: k1 takes an argument and a is the last token (Model/SearchOr.v) *)
 
 Definition angle_bad (addr : str) : bool :=
   match index_byte addr "<", index_byte addr ">" with
